@@ -74,7 +74,15 @@ func c19Events(nlive int) []c19ev {
 			return len(w.live) - 1, [][]int{sh}, true
 		}}
 	}
-	evs = append(evs, newT("(2,3)", []int{2, 3}), newT("(3)", []int{3}), newT("(2,2,2)", []int{2, 2, 2}), newT("(3,2)", []int{3, 2}))
+	evs = append(evs, newT("(2,3)", []int{2, 3}), newT("(3)", []int{3}), newT("(2,2,2)", []int{2, 2, 2}), newT("(3,2)", []int{3, 2}), newT("(1)", []int{1}))
+	evs = append(evs, c19ev{"NewScalar", func(w *c19world) (int, [][]int, bool) {
+		if len(w.live) >= 3 {
+			return -1, nil, false
+		}
+		w.nextID++
+		w.add(tensor.New(tensor.FromScalar(float64(100*w.nextID))), -1)
+		return len(w.live) - 1, nil, true
+	}})
 	evs = append(evs, c19ev{"UsePool", func(w *c19world) (int, [][]int, bool) { tensor.UsePool(); return -1, nil, true }},
 		c19ev{"DontUsePool", func(w *c19world) (int, [][]int, bool) { tensor.DontUsePool(); return -1, nil, true }},
 		c19ev{"GC", func(w *c19world) (int, [][]int, bool) { gcAndFinalizers(); return -1, nil, true }})
@@ -321,6 +329,17 @@ func c19Events(nlive int) []c19ev {
 					return j, nil, true
 				})
 			}
+			// a scalar (or one-element) operand given as a tensor is an operand like any other
+			bin("MaxBetween", func(w *c19world, a, b *tensor.Dense) (int, [][]int, bool) {
+				if i == j || !(a.Shape().Eq(b.Shape()) || a.IsScalar() || b.IsScalar()) {
+					return -1, nil, false
+				}
+				r, err := tensor.MaxBetween(a, b)
+				if rd, ok := r.(*tensor.Dense); ok && err == nil && rd != a && rd != b {
+					tensor.ReturnTensor(rd)
+				}
+				return -1, nil, true
+			})
 			bin("MatMul", func(w *c19world, a, b *tensor.Dense) (int, [][]int, bool) {
 				if a.Dims() != 2 || b.Dims() != 2 || a.Shape()[1] != b.Shape()[0] {
 					return -1, nil, false
@@ -358,6 +377,128 @@ func c19Events(nlive int) []c19ev {
 				return -1, nil, true
 			})
 		}
+	}
+	return evs
+}
+
+// c19MaskEvents: the alphabet of the mask universe.
+func c19MaskEvents(nlive int) []c19ev {
+	var evs []c19ev
+	mk := func(name string, f func(w *c19world) *tensor.Dense) {
+		evs = append(evs, c19ev{name, func(w *c19world) (int, [][]int, bool) {
+			if len(w.live) >= 3 {
+				return -1, nil, false
+			}
+			w.nextID++
+			w.add(f(w), -1)
+			return len(w.live) - 1, nil, true
+		}})
+	}
+	vals := func(w *c19world, n int) []float64 {
+		b := make([]float64, n)
+		for i := range b {
+			b[i] = float64(100*(w.nextID+1) + i%3)
+		}
+		return b
+	}
+	mk("NewMasked(2,3)", func(w *c19world) *tensor.Dense {
+		return tensor.New(tensor.WithShape(2, 3), tensor.WithBacking(vals(w, 6), []bool{true, false, true, false, true, true}))
+	})
+	mk("NewPlain(2,2)", func(w *c19world) *tensor.Dense {
+		return tensor.New(tensor.WithShape(2, 2), tensor.WithBacking(vals(w, 4)))
+	})
+	mk("NewPlain(3)", func(w *c19world) *tensor.Dense {
+		return tensor.New(tensor.WithShape(3), tensor.WithBacking(vals(w, 3)))
+	})
+	mk("NewFortranMasked(2,2)", func(w *c19world) *tensor.Dense {
+		return tensor.New(tensor.WithShape(2, 2), tensor.AsFortran(vals(w, 4), []bool{true, false, false, true}))
+	})
+	evs = append(evs, c19ev{"UsePool", func(w *c19world) (int, [][]int, bool) { tensor.UsePool(); return -1, nil, true }},
+		c19ev{"DontUsePool", func(w *c19world) (int, [][]int, bool) { tensor.DontUsePool(); return -1, nil, true }})
+	for i := 0; i < nlive; i++ {
+		i := i
+		un := func(name string, f func(w *c19world, t *tensor.Dense) (dest int, slices [][]int, ok bool)) {
+			evs = append(evs, c19ev{fmt.Sprintf("%s(%d)", name, i), func(w *c19world) (int, [][]int, bool) {
+				if i >= len(w.live) {
+					return -1, nil, false
+				}
+				return f(w, w.live[i].t)
+			}})
+		}
+		hasViews := func(w *c19world) bool {
+			for _, o := range w.live {
+				if o.parent == i {
+					return true
+				}
+			}
+			return false
+		}
+		un("SliceRows", func(w *c19world, t *tensor.Dense) (int, [][]int, bool) {
+			if len(w.live) >= 4 || t.Dims() < 2 || t.Shape()[0] < 2 {
+				return -1, nil, false
+			}
+			v, err := t.Slice(tensor.S(1, t.Shape()[0]))
+			if err != nil {
+				return -1, nil, true
+			}
+			w.add(v.(*tensor.Dense), i)
+			return len(w.live) - 1, nil, true
+		})
+		// a view is a *Dense borrowed from the pool by Slice: handing it back is ordinary use; a root is handed back only
+		// when no view of it is alive
+		un("Return", func(w *c19world, t *tensor.Dense) (int, [][]int, bool) {
+			if hasViews(w) {
+				return -1, nil, false
+			}
+			tensor.ReturnTensor(t)
+			w.live = append(w.live[:i], w.live[i+1:]...)
+			for _, o := range w.live {
+				if o.parent > i {
+					o.parent--
+				}
+			}
+			return -2, nil, true
+		})
+		// masking predicates rewrite the receiver's mask; for a view that is the parent's mask window, so they are only
+		// offered on tensors that share their mask with no other live tensor
+		pred := func(name string, f func(t *tensor.Dense) error) {
+			un(name, func(w *c19world, t *tensor.Dense) (int, [][]int, bool) {
+				if hasViews(w) || w.live[i].parent >= 0 {
+					return -1, nil, false
+				}
+				f(t)
+				return i, nil, true
+			})
+		}
+		pred("MaskedEqual", func(t *tensor.Dense) error { return t.MaskedEqual(float64(101)) })
+		pred("MaskedLess", func(t *tensor.Dense) error { return t.MaskedLess(float64(1000)) })
+		pred("ResetMask", func(t *tensor.Dense) error { return t.ResetMask(false) })
+		un("Clone", func(w *c19world, t *tensor.Dense) (int, [][]int, bool) {
+			if len(w.live) >= 4 {
+				return -1, nil, false
+			}
+			w.add(t.Clone().(*tensor.Dense), -1)
+			return len(w.live) - 1, nil, true
+		})
+		un("Materialize", func(w *c19world, t *tensor.Dense) (int, [][]int, bool) {
+			if len(w.live) >= 4 || !t.IsMaterializable() {
+				return -1, nil, false
+			}
+			w.add(t.Materialize().(*tensor.Dense), -1)
+			return len(w.live) - 1, nil, true
+		})
+		un("AddScalarSafe", func(w *c19world, t *tensor.Dense) (int, [][]int, bool) {
+			r, _ := tensor.Add(t, 1.0)
+			if rd, ok := r.(*tensor.Dense); ok {
+				tensor.ReturnTensor(rd)
+			}
+			return -1, nil, true
+		})
+		un("MaskedCount", func(w *c19world, t *tensor.Dense) (int, [][]int, bool) {
+			t.MaskedCount()
+			t.FlatNotMaskedContiguous()
+			return -1, nil, true
+		})
 	}
 	return evs
 }
@@ -414,6 +555,16 @@ func runC19(r *core.Run) {
 	defer debug.SetGCPercent(400)
 	evs := c19Events(3)
 	r.SetBound("event_instances", len(evs))
+	c19Explore(r, "", evs, depth, maxStates)
+	// second universe: masked tensors, their views, recycling of views and roots, masking predicates on fresh tensors
+	// (a small alphabet, so one level deeper)
+	mevs := c19MaskEvents(3)
+	r.SetBound("mask_universe", fmt.Sprintf("%d event instances (masked / plain / column-major-converted constructors, row views, ReturnTensor of views and roots, masking predicates, Clone, Materialize), depth %d", len(mevs), depth+1))
+	c19Explore(r, "mask|", mevs, depth+1, maxStates)
+}
+
+// c19Explore: breadth-first search over event histories (see the rule of C19); label distinguishes universes.
+func c19Explore(r *core.Run, label string, evs []c19ev, depth, maxStates int) {
 	byName := map[string]c19ev{}
 	for _, e := range evs {
 		byName[e.name] = e
@@ -468,12 +619,12 @@ func runC19(r *core.Run) {
 				}
 				if expanded >= maxStates {
 					r.CapHit = true
-					r.Note(fmt.Sprintf("C19 BFS (%s): expanded-state cap %d hit at level %d", env, maxStates, lvl))
+					r.Note(fmt.Sprintf("C19 BFS (%s%s): expanded-state cap %d hit at level %d", label, env, maxStates, lvl))
 					break
 				}
 				mine := lvl > 0 || r.Shard == 0 // the root is judged by shard 0; level-1 subtrees are partitioned over the shards
 				expanded++
-				id := fmt.Sprintf("C19|%s|%s", env, strings.Join(e.hist, "."))
+				id := fmt.Sprintf("C19|%s%s|%s", label, env, strings.Join(e.hist, "."))
 				var succ []string
 				body := func() *core.Fail {
 					succ = succ[:0]
@@ -633,7 +784,7 @@ func runC19(r *core.Run) {
 						// successor
 						w2 := replay(append(append([]string{}, e.hist...), ev.name))
 						k := key(w2)
-						r.State(env + k)
+						r.State(label + env + k)
 						if !seen[k] {
 							seen[k] = true
 							succ = append(succ, ev.name)
